@@ -1430,6 +1430,266 @@ func (g *frGen) exhaustiveCases() {
 	}
 }
 
+// ---------------------------------------------------------------------------------------
+// non-minimal varints (RFC 9000 section 16: a value may be encoded in more bytes than necessary):
+// every varint field of every frame kind, each independently 1/2/4/8 bytes wide where the value fits.
+// The parser must return the same frame as for the shortest encoding and consume exactly the bytes
+// the encoding occupies, so that the NEXT frame is found where it starts.
+// ---------------------------------------------------------------------------------------
+
+type frItem struct {
+	isVar bool
+	v     uint64
+	raw   []byte
+}
+
+func frV(v uint64) frItem    { return frItem{isVar: true, v: v} }
+func frRaw(b []byte) frItem  { return frItem{raw: b} }
+func frMinW(v uint64) int {
+	switch {
+	case v <= fv1:
+		return 1
+	case v <= fv2:
+		return 2
+	case v <= fv4:
+		return 4
+	}
+	return 8
+}
+
+func frAppendW(b []byte, v uint64, w int) []byte {
+	switch w {
+	case 1:
+		return append(b, byte(v))
+	case 2:
+		return append(b, byte(v>>8)|0x40, byte(v))
+	case 4:
+		return append(b, byte(v>>24)|0x80, byte(v>>16), byte(v>>8), byte(v))
+	}
+	return append(b, byte(v>>56)|0xc0, byte(v>>48), byte(v>>40), byte(v>>32), byte(v>>24), byte(v>>16), byte(v>>8), byte(v))
+}
+
+// the wire image of a frame as a list of varint fields and raw byte runs (first item: the type)
+func frItems(fr wire.Frame) []frItem {
+	switch f := fr.(type) {
+	case *wire.PingFrame:
+		return []frItem{frV(0x1)}
+	case *wire.HandshakeDoneFrame:
+		return []frItem{frV(0x1e)}
+	case *wire.ImmediateAckFrame:
+		return []frItem{frV(0x1f)}
+	case *wire.AckFrame:
+		ecn := f.ECT0 > 0 || f.ECT1 > 0 || f.ECNCE > 0
+		t := uint64(0x2)
+		if ecn {
+			t = 0x3
+		}
+		rs := f.AckRanges
+		if len(rs) > 64 {
+			rs = rs[:64]
+		}
+		it := []frItem{frV(t), frV(uint64(rs[0].Largest)), frV(uint64(f.DelayTime.Nanoseconds() / 8000)), frV(uint64(len(rs) - 1)), frV(uint64(rs[0].Largest - rs[0].Smallest))}
+		for i := 1; i < len(rs); i++ {
+			it = append(it, frV(uint64(rs[i-1].Smallest-rs[i].Largest-2)), frV(uint64(rs[i].Largest-rs[i].Smallest)))
+		}
+		if ecn {
+			it = append(it, frV(f.ECT0), frV(f.ECT1), frV(f.ECNCE))
+		}
+		return it
+	case *wire.ResetStreamFrame:
+		if f.ReliableSize > 0 {
+			return []frItem{frV(0x24), frV(uint64(f.StreamID)), frV(uint64(f.ErrorCode)), frV(uint64(f.FinalSize)), frV(uint64(f.ReliableSize))}
+		}
+		return []frItem{frV(0x4), frV(uint64(f.StreamID)), frV(uint64(f.ErrorCode)), frV(uint64(f.FinalSize))}
+	case *wire.StopSendingFrame:
+		return []frItem{frV(0x5), frV(uint64(f.StreamID)), frV(uint64(f.ErrorCode))}
+	case *wire.CryptoFrame:
+		return []frItem{frV(0x6), frV(uint64(f.Offset)), frV(uint64(len(f.Data))), frRaw(f.Data)}
+	case *wire.NewTokenFrame:
+		return []frItem{frV(0x7), frV(uint64(len(f.Token))), frRaw(f.Token)}
+	case *wire.StreamFrame:
+		t := uint64(0x8)
+		if f.Fin {
+			t |= 1
+		}
+		if f.DataLenPresent {
+			t |= 2
+		}
+		it := []frItem{frV(0), frV(uint64(f.StreamID))}
+		if f.Offset != 0 {
+			t |= 4
+			it = append(it, frV(uint64(f.Offset)))
+		}
+		it[0] = frV(t)
+		if f.DataLenPresent {
+			it = append(it, frV(uint64(len(f.Data))))
+		}
+		return append(it, frRaw(f.Data))
+	case *wire.MaxDataFrame:
+		return []frItem{frV(0x10), frV(uint64(f.MaximumData))}
+	case *wire.MaxStreamDataFrame:
+		return []frItem{frV(0x11), frV(uint64(f.StreamID)), frV(uint64(f.MaximumStreamData))}
+	case *wire.MaxStreamsFrame:
+		t := uint64(0x12)
+		if f.Type == protocol.StreamTypeUni {
+			t = 0x13
+		}
+		return []frItem{frV(t), frV(uint64(f.MaxStreamNum))}
+	case *wire.DataBlockedFrame:
+		return []frItem{frV(0x14), frV(uint64(f.MaximumData))}
+	case *wire.StreamDataBlockedFrame:
+		return []frItem{frV(0x15), frV(uint64(f.StreamID)), frV(uint64(f.MaximumStreamData))}
+	case *wire.StreamsBlockedFrame:
+		t := uint64(0x16)
+		if f.Type == protocol.StreamTypeUni {
+			t = 0x17
+		}
+		return []frItem{frV(t), frV(uint64(f.StreamLimit))}
+	case *wire.NewConnectionIDFrame:
+		return []frItem{frV(0x18), frV(f.SequenceNumber), frV(f.RetirePriorTo), frRaw([]byte{byte(f.ConnectionID.Len())}), frRaw(f.ConnectionID.Bytes()), frRaw(f.StatelessResetToken[:])}
+	case *wire.RetireConnectionIDFrame:
+		return []frItem{frV(0x19), frV(f.SequenceNumber)}
+	case *wire.PathChallengeFrame:
+		return []frItem{frV(0x1a), frRaw(f.Data[:])}
+	case *wire.PathResponseFrame:
+		return []frItem{frV(0x1b), frRaw(f.Data[:])}
+	case *wire.ConnectionCloseFrame:
+		if f.IsApplicationError {
+			return []frItem{frV(0x1d), frV(f.ErrorCode), frV(uint64(len(f.ReasonPhrase))), frRaw([]byte(f.ReasonPhrase))}
+		}
+		return []frItem{frV(0x1c), frV(f.ErrorCode), frV(f.FrameType), frV(uint64(len(f.ReasonPhrase))), frRaw([]byte(f.ReasonPhrase))}
+	case *wire.DatagramFrame:
+		if f.DataLenPresent {
+			return []frItem{frV(0x31), frV(uint64(len(f.Data))), frRaw(f.Data)}
+		}
+		return []frItem{frV(0x30), frRaw(f.Data)}
+	case *wire.AckFrequencyFrame:
+		return []frItem{frV(0xaf), frV(f.SequenceNumber), frV(f.AckElicitingThreshold), frV(uint64(f.RequestMaxAckDelay / time.Microsecond)), frV(uint64(f.ReorderingThreshold))}
+	}
+	return nil
+}
+
+func frEncodeW(items []frItem, width func(i int, min int) int) []byte {
+	var b []byte
+	vi := 0
+	for _, it := range items {
+		if !it.isVar {
+			b = append(b, it.raw...)
+			continue
+		}
+		b = frAppendW(b, it.v, width(vi, frMinW(it.v)))
+		vi++
+	}
+	return b
+}
+
+// one widened encoding of f: value, consumed length, and the frame behind it
+func (g *frGen) doWide(f wire.Frame, wide []byte, what string) {
+	v := protocol.Version1
+	full := frCfg{dg: true, rsa: true, af: true, exp: protocol.AckDelayExponent}
+	lvl := protocol.Encryption1RTT
+	if why := frMustReject(f); why != "" {
+		return
+	}
+	want := g.expectBack(f, protocol.AckDelayExponent)
+	if want == nil {
+		return
+	}
+	selfDelimiting := true
+	switch x := f.(type) {
+	case *wire.StreamFrame:
+		selfDelimiting = x.DataLenPresent
+	case *wire.DatagramFrame:
+		selfDelimiting = x.DataLenPresent
+	}
+	in := append([]byte{}, wide...)
+	if selfDelimiting {
+		in = append(in, 0x01, 0x00) // a PING and a PADDING behind
+	}
+	detail := fmt.Sprintf("%s frame=%s wide_encoding=%x input=%x", what, wire.VerifDumpFrame(f), wide, in)
+	p := full.parser()
+	pf, cls, consumed := g.emitParseWith(p, full, lvl, v, in, "wide-varint")
+	if cls != 0 {
+		g.monfail("frames/consumed-wide", fmt.Sprintf("%s: a valid non-minimal encoding is refused (class %d)", frName(f), cls), detail)
+		return
+	}
+	if !wire.VerifFramesEqual(pf, want) {
+		g.monfail("frames/consumed-wide", frName(f)+": a non-minimal encoding parses to "+wire.VerifDumpFrame(pf), detail)
+	}
+	wantN := len(wide)
+	if !selfDelimiting {
+		wantN = len(in)
+	}
+	if consumed != wantN {
+		g.monfail("frames/consumed-wide", fmt.Sprintf("%s: consumed %d bytes, the encoding occupies %d", frName(f), consumed, wantN), detail)
+		return
+	}
+	if sf, ok := pf.(*wire.StreamFrame); ok {
+		sf.PutBack()
+	}
+	if selfDelimiting { // the frame behind must be found where it starts
+		nf, ncls, nn, ok := g.parseWith(p, full, lvl, v, in[consumed:])
+		if _, isPing := nf.(*wire.PingFrame); ok && (ncls != 0 || !isPing || nn != 1) {
+			g.monfail("frames/consumed-wide", fmt.Sprintf("%s: the PING behind the frame is not found (class %d, consumed %d)", frName(f), ncls, nn), detail)
+		}
+	}
+	g.dist["wide-varint:"+frName(f)]++
+}
+
+func (g *frGen) wideCases(n int) {
+	r := g.r
+	// table: every kind x every varint field (the type included) widened to every larger width, one at a time
+	for k := 0; k <= frKinds; k++ {
+		f := g.mkFrame(k, -1, 0)
+		if sf, ok := f.(*wire.StreamFrame); ok && len(sf.Data) == 0 {
+			sf.Fin = true
+		}
+		if af, ok := f.(*wire.AckFrame); ok && len(af.AckRanges) > 3 {
+			af.AckRanges = af.AckRanges[:3]
+		}
+		items := frItems(f)
+		nv := 0
+		for _, it := range items {
+			if it.isVar {
+				nv++
+			}
+		}
+		for fi := 0; fi < nv; fi++ {
+			for _, w := range []int{2, 4, 8} {
+				ok := false
+				wide := frEncodeW(items, func(i, min int) int {
+					if i == fi && w > min {
+						ok = true
+						return w
+					}
+					return min
+				})
+				if ok {
+					g.doWide(f, wide, fmt.Sprintf("field %d as %d bytes", fi, w))
+				}
+			}
+		}
+		// all fields at 8 bytes
+		g.doWide(f, frEncodeW(items, func(i, min int) int { return 8 }), "all fields as 8 bytes")
+	}
+	// random: each field independently at a random width that fits
+	for i := 0; i < n; i++ {
+		f := g.mkFrame(r.Intn(frKinds+1), -1, 0)
+		if sf, ok := f.(*wire.StreamFrame); ok && len(sf.Data) == 0 {
+			sf.Fin = true
+		}
+		wide := frEncodeW(frItems(f), func(_, min int) int {
+			ws := []int{1, 2, 4, 8}
+			for {
+				if w := ws[r.Intn(4)]; w >= min {
+					return w
+				}
+			}
+		})
+		g.doWide(f, wide, "random widths")
+	}
+}
+
 func (g *frGen) mutate(enc []byte) []byte {
 	r := g.r
 	b := append([]byte{}, enc...)
@@ -1564,6 +1824,7 @@ func runFrames(w *bufio.Writer, seed uint64, n int, _ []string) {
 		}
 	}
 	g.relationalCases()
+	g.wideCases(n/2 + 20)
 	g.sequenceCases(n/4 + 10)
 	if thorough {
 		g.exhaustiveCases()
